@@ -64,3 +64,15 @@ Print Assumptions C20_poisson_prefix.
 
 Example C20_nonvacuous : ssorted [0; 1/4; 1/2; 3/4; 1] /\ (2 <= length [0; 1/4; 1/2; 3/4; 1])%nat.
 Proof. split; [valid_tac | cbn; auto with arith]. Qed.
+
+(* ---- executed instance (Q, extracted to OCaml and run against /repo) = the real-number functions
+   the theorems above are about: kernel-checked parametricity bridge (Bridge.v).  qL = map Q2R etc. ---- *)
+From Coq Require Import QArith Qreals.
+From PS Require Import Bridge.
+Local Close Scope Q_scope.
+Theorem C20_exec_merge_spike_trains_transfer : forall l : list train, qTrain (merge_spike_trains QOps l) = merge_spike_trains ROps (map qTrain l).
+Proof. exact merge_spike_trains_transfer. Qed.
+Print Assumptions C20_exec_merge_spike_trains_transfer.
+Theorem C20_exec_hist_counts_transfer : forall edges xs : list Q, qL (hist_counts QOps edges xs) = hist_counts ROps (qL edges) (qL xs).
+Proof. exact hist_counts_transfer. Qed.
+Print Assumptions C20_exec_hist_counts_transfer.
